@@ -31,7 +31,13 @@ def bind_args(fn, args, kwargs):
 
 def main(argv):
     prop, tier, name, mode = argv[:4]
-    logging.disable(logging.CRITICAL)
+    # R7: logging produces no records.  debug/info/warning are disabled outright; error-level calls still reach Logger._log, which
+    # is replaced by a no-op with the real signature -- so a malformed logging call on an error path (unsupported keyword
+    # argument) raises TypeError as it would in production, but no LogRecord (wall clock, thread ids, formatting) is built.
+    def _log(self, level, msg, args, exc_info=None, extra=None, stack_info=False, stacklevel=1):
+        return None
+    logging.Logger._log = _log
+    logging.disable(logging.WARNING)
     import aiocoap
     from .api import repo_root
     assert os.path.realpath(aiocoap.__file__).startswith(os.path.realpath(repo_root()) + "/"), aiocoap.__file__
